@@ -14,5 +14,10 @@ checks.append(chk("C13",
  TECH, "DESIGN.md section 4 C13"))
 checks.append(chk("C10",
  "Proof over the full domain of each integer/byte/bool/bytes/string/bin type: decoder result equals the spec decoding of the wire bytes for every stored width of the same family, error exactly when not representable; truncated or foreign type codes are errors.",
- "Decoder side only so far (encoders and the round-trip lemma are being added); float value clauses not yet included (sizes only).",
+ "Encoder and decoder are each verified against the same SMT spec functions; the round trip and every (stored width x read width) pair are ghost client programs (internal/verifh, build tag verif) whose postconditions are proved from the two callee CONTRACTS only. Floats use the SMT floating-point theory (one NaN value: NaN-iff-NaN; +0/-0 distinct); float64->float32 of an in-range value is IEEE round-to-nearest, which the statement's 'same value when representable' does not forbid. math.Float32bits/frombits are engine intrinsics (bit reinterpretation); math.IsInf is an assumed contract.",
  TECH, "DESIGN.md section 4 C10"))
+
+checks.append(chk("C08",
+ "Proof: for every encoder (bool, byte, ints, floats, bin64/128/256, bytes, string, struct trailer, list and message tables) the bytes appended to the buffer equal a spec function of the arguments only - literal type codes, big-endian fields, reverse compact varints with the 0xfc/0xffff/0xffffffff thresholds, NUL terminator, 3/6 and 2/4 byte table entries, big form exactly when a tag > 255, an offset > 65535 or more than 255 elements - and the bytes already in the buffer are preserved. buffer.Grow's assumed contract leaves the new bytes UNSPECIFIED, so dependence on buffer history cannot meet the postcondition.",
+ "buffer.Buffer is an interface: its contract (Grow returns the n bytes after the old content, old content preserved, new bytes unspecified) is assumed. compactint.PutReverse*, encoding/binary PutUint*, bin MarshalTo are verified from source, not assumed. The 'independent reference implementation' of the statement is played by the SMT spec functions (written from the property text with literal constants). Writer-level ordering of table entries (sorted by tag) is under C01/C12.",
+ TECH, "DESIGN.md section 4 C08"))
